@@ -46,6 +46,7 @@ type Relay struct {
 
 	LastForwardT time.Time              // when the last message was handed to the link towards the client
 	OutT         map[string][]time.Time // when each forwarded message was handed to the link
+	InT          map[string][]time.Time // when each message arrived at the middlebox
 }
 
 //go:norace
@@ -137,6 +138,10 @@ func (p *pump) RunEvent(time.Time) {
 		}
 		r.K.Lock()
 		r.In[p.dir] = append(r.In[p.dir], append([]byte(nil), b...))
+		if r.InT == nil {
+			r.InT = map[string][]time.Time{}
+		}
+		r.InT[p.dir] = append(r.InT[p.dir], time.Now())
 		var prior []byte
 		timers := false
 		if p.dir == "s2c" {
